@@ -44,7 +44,7 @@ def gen_case(r, i, tier):
     n = int(r.choice([1, 2, 7]))
     lo, hi = gen_bounds(r, d, width == "f32")
     c = {"cls": cls, "ns": nsn, "width": width, "d": d, "n": n, "lo": lo, "hi": hi, "bounded_kind": str(r.choice(["logit", "probit"])),
-         "periodic_on": False, "bounded_on": False, "affine_on": False, "periodic_idx": [], "shape1d": False}
+         "periodic_on": False, "bounded_on": False, "affine_on": False, "periodic_idx": [], "shape1d": False, "order": i % 3}
     if cls == "composite":
         k = (i // 8) % 8
         c["periodic_on"], c["bounded_on"], c["affine_on"] = bool(k & 1), bool(k & 2), bool(k & 4)
@@ -117,8 +117,17 @@ def build(c):
         return T.ProbitTransform(lower=xp.asarray(lo, dtype=dt), upper=xp.asarray(hi, dtype=dt), xp=xp, eps=EPS, dtype=dt)
     if c["cls"] == "affine":
         return T.AffineTransform(xp=xp, dtype=dt)
-    bounds = {p: [float(a), float(b)] for p, a, b in zip(params, lo, hi)}
-    return T.CompositeTransform(parameters=params, periodic_parameters=[params[j] for j in c["periodic_idx"]] if c["periodic_on"] else [],
+    # the mapping of bounds and the list of periodic names are given in an order that need not be the order of `parameters`
+    # (a dictionary built from a configuration file, a sorted list): the transform must match them BY NAME
+    items = [(p, [float(a), float(b)]) for p, a, b in zip(params, lo, hi)]
+    per = [params[j] for j in c["periodic_idx"]] if c["periodic_on"] else []
+    order = c.get("order", 0)
+    if order == 1:
+        items, per = items[::-1], per[::-1]
+    elif order == 2:
+        items, per = items[1:] + items[:1], per[1:] + per[:1]
+    bounds = dict(items)
+    return T.CompositeTransform(parameters=params, periodic_parameters=per,
                                 prior_bounds=bounds, bounded_to_unbounded=c["bounded_on"], bounded_transform=c["bounded_kind"],
                                 affine_transform=c["affine_on"], xp=xp, eps=EPS, dtype=dt)
 
@@ -170,11 +179,23 @@ def run_impl(c):
         out["affine"] = (ns.to_np(aff._mean).reshape(-1), ns.to_np(aff._std).reshape(-1))
     x = np.asarray(c["x"])
     xin = xp.asarray(x[0] if c["shape1d"] else x, dtype=dt)
+    # the same fitted object is used for many batches of the same shape (every kernel step): two warm-up batches first; the
+    # results that are checked are those of the THIRD call, and what the earlier calls returned must not change afterwards
+    fit_rows = np.asarray(c["fit"])
+    warm = []
+    for shift in (0, 1):
+        rows = fit_rows[[(k + shift) % len(fit_rows) for k in range(max(1, len(x)))]]
+        win = xp.asarray(rows[0] if c["shape1d"] else rows, dtype=dt)
+        yw, ljw = t.forward(win)
+        xbw, ljiw = t.inverse(yw)
+        warm.append((ljw, np.array(ns.to_np(ljw), copy=True), ljiw, np.array(ns.to_np(ljiw), copy=True)))
     y, lj = t.forward(xin)
     out["y"], out["lj"] = ns.to_np(y).reshape(-1, c["d"]), ns.to_np(lj).reshape(-1)
     out["lj_width"] = ns.width_of(lj)
     xb, lji = t.inverse(y)
     out["x_back"], out["lji"] = ns.to_np(xb).reshape(-1, c["d"]), ns.to_np(lji).reshape(-1)
+    out["warm_changed"] = [k for k, (a, a0, b, b0) in enumerate(warm)
+                           if not (np.array_equal(ns.to_np(a), a0, equal_nan=True) and np.array_equal(ns.to_np(b), b0, equal_nan=True))]
     out["t"], out["xp"], out["dt"] = t, xp, dt
     return out
 
@@ -225,6 +246,10 @@ def check_one(chk, c, o, r_fit, r_fwd, r_inv):
         chk.fail("transform total", case, repr(o)[:300], {**sig, "clause": "raise", "exc": type(o).__name__})
         return
     chk.case({k: c[k] for k in ("cls", "ns", "width", "d", "n", "periodic_on", "bounded_on", "affine_on", "bounded_kind", "lo", "hi")} if chk.evaluations < 8 else None, key)
+    if o.get("warm_changed"):
+        chk.fail("inverse log-Jacobian is the negative of the forward one", case,
+                 f"log-Jacobian arrays returned by earlier call(s) {o['warm_changed']} on the same object changed after later calls",
+                 {**sig, "clause": "aliasing"})
     x = np.asarray(c["x"])[:1] if c["shape1d"] else np.asarray(c["x"])
     lo, hi = np.asarray(c["lo"]), np.asarray(c["hi"])
     wdt = hi - lo
